@@ -118,8 +118,13 @@ pub fn run_call(sign: &Sign, name: &str, pages: &[Page<'static>]) -> String {
 /// A page whose raw bytes are exactly `bytes` (length must be a multiple of 16, at least 16).
 pub fn page_of(bytes: &[u8]) -> Page<'static> {
     assert!(bytes.len() % 16 == 0 && bytes.len() >= 16);
-    let w = (bytes.len() - 4) as u32; // height 8: 4 + w rounded up to 16 = len  (w = len - 4 gives exactly len)
-    Page::from_bytes(w, 8, bytes.to_vec()).expect("page bytes")
+    // height 8: 4 + w bytes of data; w = len - 4 gives exactly len, w = len - 5 pads one byte (also exactly len)
+    for w in [(bytes.len() - 4) as u32, (bytes.len() - 5) as u32, (bytes.len() - 12) as u32] {
+        if let Ok(Ok(p)) = catch(|| Page::from_bytes(w, 8, bytes.to_vec())) {
+            return p;
+        }
+    }
+    panic!("harness: cannot wrap {} bytes in a Page (Page::from_bytes rejects every width that should fit)", bytes.len());
 }
 
 fn items_of(name: &str, typ: SignType, pages: &[Page<'static>]) -> Vec<Vec<u8>> {
